@@ -52,6 +52,11 @@ def parameters(c: dict) -> dict[str, float]:
     ys, sc = ystar_of(c), scale(c)
     if net == "pool1":
         return {"a": rate(m) * ys[0], "k": rate(m)}
+    if net == "forced1":
+        # influx a (1 + sin(w t)), w = 2 pi / 100: the periodic orbit sampled at multiples of the period is
+        # a / k - a w / (k^2 + w^2); a is chosen such that this sample is the case's ystar
+        k, w = rate(m), 2.0 * math.pi / STEP
+        return {"a": ys[0] / (1.0 / k - w / (k * k + w * w)), "k": k}
     if net == "const1":  # the pool without outflow: x' = a, a * 100 = c
         return {"a": c["c"][0] * sc / STEP, "k": 0.0}
     if net == "pools2":
@@ -67,7 +72,11 @@ def parameters(c: dict) -> dict[str, float]:
     raise ValueError(net)
 
 
-VARS = {"pool1": ["x"], "const1": ["x"], "pools2": ["x", "y"], "chain2": ["x", "y"], "cycle2": ["x", "y"],
+def forced_influx(a, t):
+    return a * (1.0 + math.sin(2.0 * math.pi * t / STEP))
+
+
+VARS = {"forced1": ["x"], "pool1": ["x"], "const1": ["x"], "pools2": ["x", "y"], "chain2": ["x", "y"], "cycle2": ["x", "y"],
         "feed2": ["x", "y"], "grow1": ["x"]}
 
 
@@ -83,7 +92,10 @@ def build(c: dict, defaults: list[float] | None = None):
         m.add_variable(n, float(v))
     for p, v in parameters(c).items():
         m.add_parameter(p, float(v))
-    if net in ("pool1", "const1"):
+    if net == "forced1":
+        m.add_reaction("vin", forced_influx, args=["a", "time"], stoichiometry={"x": 1.0})
+        m.add_reaction("vout", fns.mass_action_1s, args=["x", "k"], stoichiometry={"x": -1.0})
+    elif net in ("pool1", "const1"):
         m.add_reaction("vin", fns.constant, args=["a"], stoichiometry={"x": 1.0})
         m.add_reaction("vout", fns.mass_action_1s, args=["x", "k"], stoichiometry={"x": -1.0})
     elif net == "pools2":
@@ -113,7 +125,50 @@ def other_defaults(c: dict) -> list[float]:
     return [float(v) + 5.0 * scale(c) for v in y0_of(c)]
 
 
+MAXSTEPS = 1000
+
+
+def forced_cases() -> list[dict]:
+    """The family SteadyLoop's Family = "forced" (TLC shows that the loop declares a steady state on it).  The
+    PROPERTY's prediction is failure: the network has no steady state (its solution is periodic)."""
+    out = []
+    for m in (1, 2):
+        for td in (128, 1000000):
+            for rel in (False, True):
+                c = {"net": "forced1", "kind": "relax", "m": m, "m2": 0, "ystar": [10], "dev": [3], "c": [0], "td": td,
+                     "rel": rel, "user": False, "u": 0, "prior": "none", "entry": "simulator"}
+                out.append({"case": c, "key": case_key(c), "outcome": "fail", "slo": MAXSTEPS, "shi": MAXSTEPS,
+                            "fragile": False, "undefined": False, "origin": "forced"})
+    return out
+
+
 def crosscheck_rendering(c: dict) -> str | None:
+    if c["net"] == "forced1":       # not autonomous: checked against a high-accuracy solve of its closed form
+        return crosscheck_forced(c)
+    return _crosscheck_rendering(c)
+
+
+def crosscheck_forced(c: dict) -> str | None:
+    from scipy.integrate import solve_ivp
+
+    m = build(c)
+    p = parameters(c)
+
+    def f(t, y):
+        return [forced_influx(p["a"], t) - p["k"] * y[0]]
+
+    y0 = y0_of(c)[0]
+    sol = solve_ivp(f, (0.0, STEP), [y0], rtol=1e-10, atol=1e-12)
+    want = c["ystar"][0] + c["dev"][0] / 2 ** c["m"]
+    if abs(sol.y[0, -1] - want) > 1e-6:
+        return f"rendered forced1 maps {y0} to {sol.y[0, -1]} over one period, the specification says {want}"
+    got = float(m.get_right_hand_side({"x": y0}, time=25.0)["x"])
+    if abs(got - f(25.0, [y0])[0]) > 1e-12:
+        return "rendered forced1 right-hand side differs from its closed form"
+    return None
+
+
+def _crosscheck_rendering(c: dict) -> str | None:
     """Spec validation: the rendered network's exact flow over one step is the specification's map.
 
     The networks are linear, so the flow is y* + expm(100 J) (y - y*) with the Jacobian J read off the real
@@ -161,13 +216,23 @@ def first_case(c: dict) -> dict:
     return dict(c, ystar=ys1, dev=[3] * len(ys1), prior="none")
 
 
+def user_y0(c: dict) -> dict[str, float]:
+    """User-supplied initial values are a MAPPING: its key order is the caller's business (sorted, read from a file,
+    ...), not the model's declaration order.  Two of three cases hand the keys over in reverse declaration order."""
+    names = VARS[c["net"]]
+    pairs = list(zip(names, y0_of(c)))
+    if (c["m"] + c["td"] + sum(c["dev"]) + sum(c["c"])) % 3 != 0:
+        pairs.reverse()
+    return dict(pairs)
+
+
 def _simulator(c: dict):
     from mxlpy import Simulator
 
     names = VARS[c["net"]]
     if c["user"]:
         model = build(c, other_defaults(c))
-        return model, Simulator(model, y0=dict(zip(names, y0_of(c))))
+        return model, Simulator(model, y0=user_y0(c))
     model = build(c)
     return model, Simulator(model)
 
@@ -409,6 +474,10 @@ def classify(pred: dict, detail: dict) -> str | None:
     obs = detail.get("observed")
     if not isinstance(obs, dict):
         obs = detail.get("obs")
+    if pred["case"]["net"] == "forced1" and pred["outcome"] == "fail" and isinstance(obs, dict) \
+            and obs.get("kind") == "value":
+        # shape: time-dependent forcing whose period divides the sampling interval of the search
+        return "periodic-forcing-commensurate"
     if not isinstance(obs, dict) or obs.get("kind") != "value" or obs.get("t") != 2 * STEP:
         return None
     if pred["outcome"] == "ok" and pred["slo"] <= 2 <= pred["shi"]:
